@@ -5,7 +5,7 @@ use crate::pipeline::Lang;
 use crate::report::{self, Report, Violation};
 use serde_json::json;
 
-const SRC: &str = "#[typeshare]\npub struct Item { pub user_id: u32, pub when: DateTime, pub items: Option<Vec<u32>>, pub nothing: () }\n\n#[typeshare]\npub struct Wrapper<T> { pub inner: T }\n\n#[typeshare(swift = \"Equatable\")]\npub struct Decorated { pub a: u32 }\n\n#[typeshare(swiftGenericConstraints = \"T: Equatable\")]\npub struct Pair<T, U> { pub t: T, pub u: U }\n\n#[typeshare(swift = \"Equatable\", swiftGenericConstraints = \"A: Hashable & Comparable\")]\n#[serde(tag = \"type\", content = \"content\")]\npub enum Both<A, B> { One(A), Two(B) }\n";
+const SRC: &str = "#[typeshare]\npub struct Item { pub user_id: u32, pub when: DateTime, pub items: Option<Vec<u32>>, pub nothing: () }\n\n#[typeshare]\npub struct Wrapper<T> { pub inner: T }\n\n#[typeshare]\npub struct OAuthToken { pub oauth_token: String, pub ipv6_addr: u32, pub api_url: String }\n\n#[typeshare(swift = \"Equatable\")]\npub struct Decorated { pub a: u32 }\n\n#[typeshare(swiftGenericConstraints = \"T: Equatable\")]\npub struct Pair<T, U> { pub t: T, pub u: U }\n\n#[typeshare(swift = \"Equatable\", swiftGenericConstraints = \"A: Hashable & Comparable\")]\n#[serde(tag = \"type\", content = \"content\")]\npub enum Both<A, B> { One(A), Two(B) }\n";
 
 /// Swift: the conformance list of `decl_name` and the constraint sets of its generic parameters, as sets
 fn swift_decl_sets(text: &str, decl_name: &str) -> Option<(Vec<String>, std::collections::BTreeMap<String, Vec<String>>)> {
@@ -272,6 +272,16 @@ pub fn run(args: &[String]) -> i32 {
             })),
             ("codablevoid_constraints", Lang::Swift, "[swift]\ncodablevoid_constraints = [\"Equatable\"]\n[swift.type_mappings]\nDateTime = \"Date\"\n".into(), Box::new(|t: &str| t.contains("struct CodableVoid: Codable, Equatable"))),
             ("uppercase_acronyms", Lang::Go, "[go]\npackage = \"p\"\nuppercase_acronyms = [\"ID\"]\n[go.type_mappings]\nDateTime = \"string\"\n".into(), Box::new(|t: &str| t.contains("UserID uint32"))),
+            // mixed-case entries: whatever the list says reaches the generator as it is. The expectation is computed by the
+            // library itself, configured in-process with the very same list (differential: file-only table == API argument)
+            ("uppercase_acronyms-mixed-case", Lang::Go, "[go]\npackage = \"p\"\nuppercase_acronyms = [\"OAuth\", \"IPv6\", \"url\", \"ID\"]\n[go.type_mappings]\nDateTime = \"string\"\n".into(), Box::new(|t: &str| {
+                let cfg = crate::pipeline::Cfg { package: "p".into(), go_uppercase_acronyms: vec!["OAuth".into(), "IPv6".into(), "url".into(), "ID".into()], type_mappings: vec![("DateTime".into(), "string".into())], ..Default::default() };
+                let body = |x: &str| x.lines().filter(|l| !l.trim().is_empty() && !l.trim_start().starts_with("//")).map(|l| l.to_string()).collect::<Vec<_>>();
+                match crate::pipeline::run(&[crate::pipeline::SrcFile::single(SRC)], Lang::Go, &cfg) {
+                    crate::pipeline::Outcome::Ok(m) => m.values().next().map(|lib| body(lib) == body(t)).unwrap_or(false),
+                    _ => false,
+                }
+            })),
             ("uppercase_acronyms-absent", Lang::Go, "[go]\npackage = \"p\"\n[go.type_mappings]\nDateTime = \"string\"\n".into(), Box::new(|t: &str| t.contains("UserId uint32"))),
             ("no_pointer_slice-true", Lang::Go, "[go]\npackage = \"p\"\nno_pointer_slice = true\n[go.type_mappings]\nDateTime = \"string\"\n".into(), Box::new(|t: &str| t.contains("Items []uint32 "))),
             ("no_pointer_slice-false", Lang::Go, "[go]\npackage = \"p\"\nno_pointer_slice = false\n[go.type_mappings]\nDateTime = \"string\"\n".into(), Box::new(|t: &str| t.contains("Items *[]uint32 "))),
